@@ -68,6 +68,16 @@ CLAIMED = {
             'exploration with a model oracle is the right level.',
             'same input preconditions as C01; results only read from accumulators that absorbed data; histogram results additionally '
             'checked to be copies (documented).', '§3 C11'),
+    'C08': ('exploration',
+            'grammar-based Hypothesis generation of operator programs against a streaming reference interpreter; negative generation of invalid programs',
+            'Programs of 1..6 operators are generated by construction from a schema-tracking grammar covering every key shape (single, '
+            'tuple, Key path, Index, dict kwargs, dict renaming, SELF, SKIP, Literal) and run through iterate(), a data source and the '
+            'per-record call; outputs must equal the reference interpreter, caller records must equal their deep-copied snapshot, '
+            'values untouched by assign/filter/sink must be the identical objects, every sink must have seen exactly the reference '
+            'stream once and be closed. 19 families of documented invalid combinations must raise while building/making, before an '
+            'element is pulled. A reference interpreter over generated programs is the natural exploration-level oracle.',
+            'functions of known arity/result shape from vlib/targets.py; batch(n) groups the current output keys as documented.',
+            '§3 C08'),
 }
 
 PENDING_REASON = 'check not built yet in this session (work in progress; see DESIGN.md §9 build order) - not claimed until its check exists'
